@@ -488,6 +488,35 @@ def _run_case(s, chunks, rows, probe, events, between_reads, sync_keys):
                     os.write(s.master, ev[3][1:])
                     s.sent += len(ev[3]) - 1
                 statuses.append(s.tell_printer(ev[1], ev[2], wait=False))
+            elif ev[0] == "flood":
+                # one printer thread is told to print a long series of messages at once, and meanwhile `ev[2]` short reads are ended
+                # by Enter keys, each sent as soon as the previous read has returned (plus 0-1.6 ms; an Enter sent earlier could be
+                # read together with the previous one and dropped with that read's buffer): prints keep meeting the moments at
+                # which a read starts or ends. Then wait until every print call has returned.
+                os.write(s.ctl_w, "".join("%d %s\n" % (th, hx) for (th, hx) in ev[1]).encode())
+                nr = sum(1 for l in s.obs if l.startswith("R "))
+                for i in range(ev[2]):
+                    os.write(s.master, b"\r")
+                    s.sent += 1
+                    t0 = time.time()
+                    while time.time() - t0 < 5.0:
+                        s._drain()
+                        if sum(1 for l in s.obs[-40:] if l.startswith("R ")) and sum(1 for l in s.obs if l.startswith("R ")) >= nr + i + 1:
+                            break
+                        if s._exited():
+                            break
+                    t_end = time.time() + (i % 5) * 0.0004
+                    while time.time() < t_end:
+                        s._drain()
+                t0 = time.time()
+                while time.time() - t0 < s.timeout:
+                    s._drain()
+                    if sum(1 for l in s.obs if l.startswith("P ")) >= len(ev[1]) or s._exited():
+                        break
+                    time.sleep(0.0005)
+                time.sleep(0.003)
+                statuses.append(s.wait_quiet())
+                s.rebase()
             elif ev[0] == "winch_blocked":
                 # a resize while NOTHING is read from the terminal: the child is (or soon will be) blocked writing a message
                 # larger than the pty takes, and the signal interrupts that write
